@@ -143,6 +143,14 @@ std::string aname()
         return "char";
     } else if constexpr (std::is_same_v<A, float>) {
         return "float";
+    } else if constexpr (std::is_same_v<A, double>) {
+        return "double";
+    } else if constexpr (std::is_same_v<A, unsigned>) {
+        return "unsigned";
+    } else if constexpr (std::is_same_v<A, long long>) {
+        return "longlong";
+    } else if constexpr (std::is_same_v<A, bool>) {
+        return "bool";
     } else if constexpr (std::is_same_v<A, Err>) {
         return "Err";
     } else if constexpr (std::is_same_v<A, mc::Tracked<mc::copy_move, 0>> || std::is_same_v<A, Plain<mc::copy_move, 0>>) {
